@@ -2,7 +2,7 @@
    [run cap init ls = Some s]: ls is a schedule of the repaired logger (any interleaving of any number of
    logging goroutines, the flusher and the FlushLogger caller; any queue capacity) leading to state s.
    rets_of / calls_of / writes_of: the entries whose logging call returned / began / that were handed to
-   their writer (one label = one Write of one whole entry on the entry's writer), in schedule order. *)
+   their writer (one Write label = one Write of one whole entry on the entry's writer), in schedule order. *)
 From Coq Require Import List NArith Bool.
 From TarsV Require Import Gen.Consts Conc.Flush Conc.FlushProofs.
 Import ListNotations.
@@ -38,8 +38,8 @@ Theorem C20_write_was_logged : forall cap a l b s e,
   run cap init (a ++ l :: b) = Some s -> writes_of [l] = [e] -> In e (calls_of a).
 Proof. exact FlushProofs.write_was_logged. Qed.
 
-(* nothing is dropped: everything enqueued is written or still queued, in order *)
-Theorem C20_conservation : forall cap ls s, run cap init ls = Some s -> hist s = writes_of ls ++ q s.
+(* nothing is dropped: everything enqueued is written, held by the flusher for its Write, or still queued, in order *)
+Theorem C20_conservation : forall cap ls s, run cap init ls = Some s -> hist s = writes_of ls ++ held s ++ q s.
 Proof. exact FlushProofs.conservation. Qed.
 
 (* after the request the flusher always has a step until it has acknowledged *)
@@ -47,12 +47,12 @@ Theorem C20_flusher_not_blocked_after_request : forall cap s,
   req s = true -> fp s <> Done -> exists l s', flusher_label l /\ step cap s l = Some s'.
 Proof. exact FlushProofs.flusher_not_blocked_after_request. Qed.
 
-(* ... and, counted from FlushLogger's signal, [length of the queue + 1] of its steps suffice to write every entry whose
-   call had returned, however many entries other goroutines log meanwhile. (That these steps fit into FlushLogger's
+(* ... and, counted from FlushLogger's (first) signal, [2 * length of the queue + 2] of its steps (a receive and a Write per
+   entry) suffice to write every entry whose call had returned, however many entries other goroutines log meanwhile. (That these steps fit into FlushLogger's
    one second depends on the scheduler and the writers' speed: outside the model.) *)
 Theorem C20_flush_bounded : forall cap l1 l2 s1 s2 s,
   run cap init l1 = Some s1 -> req s1 = false -> step cap s1 Request = Some s2 -> run cap s2 l2 = Some s ->
-  (length (q s1) + 1 <= flusher_steps l2)%nat ->
+  (2 * length (q s1) + 2 <= flusher_steps l2)%nat ->
   forall e, In e (rets_of l1) -> In e (writes_of (l1 ++ Request :: l2)).
 Proof. exact FlushProofs.flush_bounded. Qed.
 
